@@ -59,6 +59,9 @@ Example C06_nonvacuous : parse_frame [0;0;0;5;9;0] = PUnknown 9 9 /\ conn_parse 
                          /\ run_conn [[0;0;0;5;9;0]; [1;2;3;0;0;0;1;0]] = ([Choke], RPending, []).
 Proof. vm_compute. repeat split. Qed.
 
+(* "more than one maximum-size frame": the code's constant, pinned *)
+Example C06_frame_pinned : MAX_FRAME_SIZE = 65536. Proof. reflexivity. Qed.
+
 Print Assumptions C06_total.
 Print Assumptions C06_bounded.
 Print Assumptions C06_progress.
